@@ -1,0 +1,80 @@
+//go:build verif
+
+package version
+
+// Schedule points of a commit (C01): every interaction of CommitFamilyEditLog with the edit log it is
+// given and with the family version it looks up is reported to a callback, together with whether the
+// version set's mutex is held at that moment. The harness uses the points at which the mutex is NOT
+// held to run other committers of the same store there (hand-over-hand, one goroutine at a time).
+// Verification hooks: no production code path calls them.
+
+// VerifC01SchedFunc receives the point name ("IsEmpty", "Add", "marshal", "apply", "GetSnapshot",
+// "appendVersion") and whether vs.mutex is held.
+type VerifC01SchedFunc func(point string, locked bool)
+
+func verifC01Locked(vs *storeVersionSet) bool {
+	if vs.mutex.TryLock() {
+		vs.mutex.Unlock()
+		return false
+	}
+	return true
+}
+
+type verifC01EditLog struct {
+	EditLog
+	vs *storeVersionSet
+	cb VerifC01SchedFunc
+}
+
+func (l *verifC01EditLog) at(point string) { l.cb(point, verifC01Locked(l.vs)) }
+
+func (l *verifC01EditLog) IsEmpty() bool { l.at("IsEmpty"); return l.EditLog.IsEmpty() }
+
+// Add: the argument (e.g. the next file number just read) has been evaluated by the caller; the
+// point lies between that read and the log becoming part of the edit log.
+func (l *verifC01EditLog) Add(log Log)              { l.at("Add"); l.EditLog.Add(log) }
+func (l *verifC01EditLog) marshal() ([]byte, error) { l.at("marshal"); return l.EditLog.marshal() }
+func (l *verifC01EditLog) apply(v Version)          { l.at("apply"); l.EditLog.apply(v) }
+
+// VerifC01WrapEditLog returns el with the schedule points installed.
+func VerifC01WrapEditLog(vs StoreVersionSet, el EditLog, cb VerifC01SchedFunc) EditLog {
+	return &verifC01EditLog{EditLog: el, vs: vs.(*storeVersionSet), cb: cb}
+}
+
+type verifC01FamilyVersion struct {
+	FamilyVersion
+	vs *storeVersionSet
+	cb VerifC01SchedFunc
+}
+
+// GetSnapshot: the point lies between taking the snapshot (the read of the current version) and the
+// caller using it.
+func (f *verifC01FamilyVersion) GetSnapshot() Snapshot {
+	s := f.FamilyVersion.GetSnapshot()
+	f.cb("GetSnapshot", verifC01Locked(f.vs))
+	return s
+}
+
+func (f *verifC01FamilyVersion) appendVersion(v Version) {
+	f.cb("appendVersion", verifC01Locked(f.vs))
+	f.FamilyVersion.appendVersion(v)
+}
+
+// VerifC01WrapFamilyVersion makes the version set hand out a wrapped family version for `family`
+// (the object CommitFamilyEditLog looks up; the family itself keeps its own reference), and
+// returns a function undoing it.
+func VerifC01WrapFamilyVersion(vs StoreVersionSet, family string, cb VerifC01SchedFunc) (restore func()) {
+	s := vs.(*storeVersionSet)
+	s.mutex.Lock()
+	defer s.mutex.Unlock()
+	orig, ok := s.familyVersions[family]
+	if !ok {
+		return func() {}
+	}
+	s.familyVersions[family] = &verifC01FamilyVersion{FamilyVersion: orig, vs: s, cb: cb}
+	return func() {
+		s.mutex.Lock()
+		defer s.mutex.Unlock()
+		s.familyVersions[family] = orig
+	}
+}
